@@ -87,6 +87,18 @@ class Folder:
                 if s["k"] == "assign":
                     v = self._rvalue(f, body, env, s["rv"])
                     self._store(env, s["lhs"], v)
+                    # `_t = &mut _it` / `_t = move _u` of such a borrow: remember which local a unique borrow points at, so that
+                    # Iterator::next(move _t) can step the iterator held in that local
+                    if not s["lhs"]["p"]:
+                        rv_ = s["rv"]
+                        if rv_["k"] == "ref" and rv_.get("p") is not None and not rv_["p"]["p"]:
+                            env[("borrow", s["lhs"]["l"])] = rv_["p"]["l"]
+                        elif rv_["k"] == "ref" and rv_.get("p") is not None and [e_["k"] for e_ in rv_["p"]["p"]] == ["deref"] and ("borrow", rv_["p"]["l"]) in env:
+                            env[("borrow", s["lhs"]["l"])] = env[("borrow", rv_["p"]["l"])]      # a reborrow `&mut *_t`
+                        elif rv_["k"] == "use" and op_place(rv_["a"]) is not None and not op_place(rv_["a"])["p"] and ("borrow", op_place(rv_["a"])["l"]) in env:
+                            env[("borrow", s["lhs"]["l"])] = env[("borrow", op_place(rv_["a"])["l"])]
+                        else:
+                            env.pop(("borrow", s["lhs"]["l"]), None)
             t = blk["term"]
             k = t["k"]
             if k == "goto":
@@ -117,7 +129,20 @@ class Folder:
                 if fr is None:
                     raise Unsupported("indirect call")
                 args2 = [self._operand(f, body, env, a) for a in t["args"]]
-                v = self._intrinsic(f, fr, args2)
+                stepped = False
+                if (fr.get("resolved") or fr["key"]).rsplit("::", 1)[-1] == "next" and len(t["args"]) == 1 and op_place(t["args"][0]) is not None \
+                        and not op_place(t["args"][0])["p"] and ("borrow", op_place(t["args"][0])["l"]) in env:
+                    holder = env[("borrow", op_place(t["args"][0])["l"])]
+                    it = env.get(holder)
+                    if isinstance(it, tuple) and it[0] == "iter":
+                        if it[1]:
+                            v = ("some", it[1][0])
+                            env[holder] = ("iter", tuple(it[1][1:]))
+                        else:
+                            v = ("none",)
+                        stepped = True
+                if not stepped:
+                    v = self._intrinsic(f, fr, args2)
                 self._store(env, t["dest"], v)
                 bb = t["t"]
             elif k == "unreachable":
@@ -307,6 +332,21 @@ class Folder:
             c = a[0]
             return self.call(c[1], [("tuple",) + tuple(c[2])] + list(a[1][1:]))
         if s0 is not None and not all(ord(ch) < 128 for ch in s0[1]) and base in ("str::find", "std::ops::Index::index"):
+            # offsets are byte offsets of the UTF-8 text
+            raw = s0[1].encode("utf-8")
+            if base == "str::find" and len(a) > 1:
+                hits = [raw.find(pc.encode("utf-8")) for pc in pat_chars(a[1])]
+                hits = [h for h in hits if h >= 0]
+                return ("some", min(hits)) if hits else ("none",)
+            if base == "std::ops::Index::index" and len(a) > 1 and isinstance(a[1], tuple) and a[1][0] in ("RangeTo", "RangeFrom", "Range"):
+                r = a[1]
+                lo, hi = (0, r[1]) if r[0] == "RangeTo" else (r[1], len(raw)) if r[0] == "RangeFrom" else (r[1], r[2])
+                if not (0 <= lo <= hi <= len(raw)):
+                    raise Diverged("slice out of range")
+                for off in (lo, hi):
+                    if off < len(raw) and (raw[off] & 0xC0) == 0x80:
+                        raise Diverged("slice offset inside a character")
+                return ("str", raw[lo:hi].decode("utf-8"))
             raise Unsupported("byte offsets into non-ASCII text")
         if s0 is not None and len(a) > 1 and base in ("str::trim_start_matches", "str::trim_end_matches", "str::trim_matches"):
             pcs = pat_chars(a[1]) if not (isinstance(a[1], tuple) and a[1][0] == "closure") else None
@@ -342,6 +382,16 @@ class Folder:
             if base != "str::trim_start":
                 t = t.rstrip(WS)
             return ("str", t)
+        if s0 is not None and len(a) > 1 and base in ("str::split", "str::splitn") and not (isinstance(a[-1], tuple) and a[-1][0] == "closure"):
+            pcs = pat_chars(a[-1])
+            if len(pcs) == 1 and pcs[0]:
+                parts = s0[1].split(pcs[0]) if base == "str::split" else s0[1].split(pcs[0], max(a[1] - 1, 0))
+                return ("iter", tuple(("str", x) for x in parts))
+            raise Unsupported("split on a set of patterns")
+        if s0 is not None and len(a) == 1 and base == "str::split_whitespace":
+            return ("iter", tuple(("str", x) for x in s0[1].split()))
+        if it0 is not None and len(a) == 1 and base.rsplit("::", 1)[-1] == "count":
+            return len(it0[1])
         if s0 is not None and len(a) > 1:
             if base == "str::strip_prefix":
                 for pc in pat_chars(a[1]):
@@ -365,6 +415,19 @@ class Folder:
             nm0 = base.rsplit("::", 1)[-1]
             if nm0 == "unwrap_or" and len(a) > 1:
                 return a[0][1] if a[0][0] == "some" else a[1]
+            if nm0 == "unwrap_or_default" and len(a) == 1:
+                if a[0][0] == "some":
+                    return a[0][1]
+                ty = (fr.get("substs") or ["?"])[0]
+                if ty in ("&str", "std::string::String", "&'static str") or ty.endswith(" str"):
+                    return ("str", "")
+                if ty in ("usize", "u8", "u16", "u32", "u64", "isize", "i8", "i16", "i32", "i64", "bool", "char"):
+                    return 0
+                raise Unsupported("default value of %s" % ty)
+            if nm0 in ("unwrap", "expect") and a[0][0] == "some":
+                return a[0][1]
+            if nm0 in ("unwrap", "expect") and a[0][0] == "none":
+                raise Diverged("unwrap of None")
             if nm0 == "map_or" and len(a) > 2:
                 return call_closure(a[2], a[0][1]) if a[0][0] == "some" else a[1]
         if s0 is not None:
@@ -373,8 +436,15 @@ class Folder:
             if base == "str::len":
                 return len(s0[1].encode("utf-8"))
             if base == "str::lines":
-                return ("iter", tuple(("str", x) for x in s0[1].splitlines()) if not any(c in s0[1] for c in "\x0b\x0c\x1c\x1d\x1e\x85\u2028\u2029") else
-                        tuple(("str", x[:-1] if x.endswith("\r") else x) for x in (s0[1][:-1] if s0[1].endswith("\n") else s0[1]).split("\n")) if s0[1] else ())
+                # Rust's str::lines: lines end at LF or CR LF (a lone CR is not a line ending); a final empty line is dropped
+                t = s0[1]
+                if not t:
+                    return ("iter", ())
+                pieces = t.split("\n")
+                ended = [True] * (len(pieces) - 1) + [False]      # every piece but the last was ended by LF
+                if pieces[-1] == "":
+                    pieces, ended = pieces[:-1], ended[:-1]
+                return ("iter", tuple(("str", x[:-1] if (e_ and x.endswith("\r")) else x) for x, e_ in zip(pieces, ended)))
             if base == "str::chars":
                 return ("iter", tuple(ord(c) for c in s0[1]))
             if base in ("str::starts_with", "str::ends_with") and len(a) > 1:
@@ -394,6 +464,8 @@ class Folder:
                     if call_closure(a[1], ("ref", x)):
                         return ("some", x)
                 return ("none",)
+        if it0 is not None and base.rsplit("::", 1)[-1] in ("into_iter", "by_ref") and len(a) == 1:
+            return it0
         if it0 is not None and base.rsplit("::", 1)[-1] == "next":
             raise Unsupported("stateful iterator")
         if a and isinstance(a[0], tuple) and a[0][0] in ("some", "none"):
